@@ -70,7 +70,7 @@ Print Assumptions C17_inverse_Q_original_refuted.
    Proved: the same for (M, B) in {(2, 3), (-512, 511)} and ALL exponents, formats and raw
    readings (393 216 cases evaluated inside Coq over primitive floats). Missing: the other
    (M, B) pairs - covered only by the per-run check against the implementation (harness
-   oracle: 40 / 600 pairs, all exponents, formats and readings), not by proof. *)
+   oracle: 40 / 400 pairs, all exponents, formats and readings), not by proof. *)
 Theorem C17_float_close_partial : forall (m b k1 k2 : Z) (fmt raw : N),
   In (m, b) [(2, 3); (-512, 511)] -> -8 <= k1 <= 7 -> -8 <= k2 <= 7 -> (fmt < 3)%N -> (raw < 256)%N ->
   let s := mkSensor fmt 0 m b k1 k2 in
